@@ -144,6 +144,8 @@ def scalar_rules(F, R):
         fbs = [b for b in F.bodies if b["krate"] == "flatty_portable" and b["def"] == "%s::%s::from_bytes" % (adt, gen)]
         tbs = [b for b in F.bodies if b["krate"] == "flatty_portable" and b["def"] == "%s::%s::to_bytes" % (adt, gen)]
         ok = len(fbs) == 1 and the_return(Body(fbs[0])) == ["%s{$bytes}" % nm] and len(tbs) == 1 and the_return(Body(tbs[0])) == ["$self.0"]
+        # ... and nothing else happens in them (a pair of byte swaps in from_bytes / to_bytes would cancel in every round trip but not in memory)
+        ok = ok and all(not list(Body(b_).calls()) and not list(Body(b_).switches()) for b_ in fbs + tbs)
         R.ob("D3.bytes-identity", nm, "from_bytes/to_bytes", ok, "%s: from_bytes / to_bytes are the identity on the stored byte array" % nm, where=fbs[0]["span"] if fbs else None)
         a = F.adts.get(adt)
         ok = a is not None and a["repr_c"] and len(a["variants"][0]["fields"]) == 1 and a["variants"][0]["fields"][0]["ty"] == "[u8; N]"
@@ -191,3 +193,45 @@ def scalar_rules(F, R):
                         if "agg" in s["r"] and isinstance(s["r"]["agg"], dict) and "vname" in s["r"]["agg"]]
             ok = f_t is not None and built(f_t, t_t) == ["False"] and built(t_t, f_t) == ["True"]
     R.ob("D4.bool-from", "Bool", "From<bool>", ok, "Bool::from(true) = True, Bool::from(false) = False", where=fb[0]["span"] if fb else None)
+    # Bool -> bool and the operators (every pair of values: the bodies are straight-line delegations to the native bool)
+    BFROM = "flatty_portable::bool_::<impl core::convert::From<flatty_portable::bool_::Bool> for bool>::from"
+    tb = [b for b in F.bodies if b["krate"] == "flatty_portable" and b["def"] == BFROM]
+    ok = False
+    if len(tb) == 1:
+        body = Body(tb[0])
+        sw = list(body.switches())
+        if len(sw) == 1:
+            sbb, st = sw[0]
+            tv = {int(v): t for v, t in st["targets"]}
+            cond = canon(body.expr_of_operand(st["switch"]))
+
+            def stored(bb, others):
+                return [canon(body.expr_of_rvalue(s_["r"])) for x in body.reachable_from(bb, avoid=others) for s_ in body.stmts(x)
+                        if s_["l"] and s_["l"]["v"] == 0 and not s_["l"]["p"]]
+            ok = cond == "discr($value)" and set(tv) == {0, 1} and stored(tv[0], [tv[1]]) == ["0"] and stored(tv[1], [tv[0]]) == ["1"]
+    R.ob("D4.bool-into", "Bool", "From<Bool> for bool", ok, "bool::from(Bool::False) = false, bool::from(Bool::True) = true", where=tb[0]["span"] if tb else None)
+    nops = 0
+    for tr, meth in (("Not", "not"), ("BitAnd", "bitand"), ("BitOr", "bitor"), ("BitXor", "bitxor")):
+        bs = [b for b in F.bodies if b["krate"] == "flatty_portable" and b["def"] == "<flatty_portable::bool_::Bool as core::ops::bit::%s>::%s" % (tr, meth)]
+        args = "%s($self)" % BFROM if meth == "not" else "%s($self), %s($rhs)" % (BFROM, BFROM)
+        want = ["<T as core::convert::Into<U>>::into(<bool as core::ops::bit::%s>::%s(%s))" % (tr, meth, args)]
+        got = the_return(Body(bs[0])) if len(bs) == 1 else None
+        nops += 1
+        R.ob("D5.bool-op", "Bool", tr, got == want, "Bool::%s is the native bool operation on the converted operands, converted back%s" % (
+            meth, "" if got == want else " -- found %s" % got), where=bs[0]["span"] if bs else None)
+        if meth == "not":
+            continue
+        ab_ = [b for b in F.bodies if b["krate"] == "flatty_portable" and b["def"] == "<flatty_portable::bool_::Bool as core::ops::bit::%sAssign>::%s_assign" % (tr, meth)]
+        ok = False
+        found = None
+        if len(ab_) == 1:
+            body = Body(ab_[0])
+            cs = list(body.calls())
+            wantc = "<flatty_portable::bool_::Bool as core::ops::bit::%s>::%s($self, $rhs)" % (tr, meth)
+            st_ = [canon(body.expr_of_rvalue(s_["r"])) for bb_, i_, s_ in body.assigns() if s_["l"]["p"] and s_["l"]["v"] == 1]
+            found = ([canon(body.expr_of_call(t, 0, bb)) for bb, t in cs], st_)
+            ok = found == ([wantc], [wantc])
+        nops += 1
+        R.ob("D5.bool-op", "Bool", tr + "Assign", ok, "Bool::%s_assign stores self %s rhs (the same operator) into self%s" % (
+            meth, meth, "" if ok else " -- found %s" % (found,)), where=ab_[0]["span"] if ab_ else None)
+    R.floor("D5", "Bool operators compared", nops, 7)
